@@ -8,6 +8,35 @@ ROOT = os.path.dirname(os.path.dirname(os.path.abspath(__file__)))
 
 # id -> (category, technique, level text, level note, design ref)
 CHECKS = {
+    'C01': ('exploration',
+            'Hypothesis-generated multi-session command programs; shadow-client '
+            'invariants + glass-box comparison with the server-side view + '
+            'ground-truth probe',
+            'Generated programs of 1-3 sessions (addresses decoded relative '
+            'to each session\'s own possibly stale view, split literals, IDLE, '
+            'timers) run in-process on dict and maildir; after every response '
+            'the client-side invariants (EXPUNGE in range, EXISTS never '
+            'shrinks, FETCH n UID agrees with position n, no EXPUNGE during a '
+            'non-UID FETCH/STORE/SEARCH) are asserted, the shadow view is '
+            'compared with ConnectionState._selected.messages, and STORE/'
+            'FETCH/SEARCH results are compared with a fresh probe session. '
+            'Sampled, not exhaustive.',
+            'Asyncio subsystem only (a non-IDLE command completes in one loop '
+            'iteration there, so interleaving is at command / literal / IDLE / '
+            'timer granularity); trusts harness/wire.py and the probe session.',
+            'DESIGN.md section 3, C01'),
+    'C02': ('exploration',
+            'Hypothesis-generated multi-session histories with sync points; '
+            'shadow-client view vs ground-truth dump, both directions',
+            'Histories of 2-4 sessions on one mailbox including stale '
+            'addresses; at generated sync points and at the end every session '
+            'issues NOOP/CHECK and its {uid -> flags} view must equal a fresh '
+            'probe dump (nothing stuck, nothing lost, no stale flags). '
+            'Sampled, not exhaustive.',
+            'Asyncio subsystem only; sessions learn UIDs of new positions by '
+            'FETCH n:m (UID); only system flags; trusts harness/wire.py and '
+            'the probe session.',
+            'DESIGN.md section 3, C02'),
     'C20': ('exploration',
             'exhaustive schedule enumeration + Hypothesis-generated '
             'schedules with cancellation/exception faults, enter/exit-log '
